@@ -6,7 +6,8 @@
     before any frame is produced;
   * a Transfer message without data octets makes `_recv_msg` raise `AttributeError`
     (`msg.payload.payload.load` on `NoPayload`);
-  * the 20-bit length wraps (`BitField` masks) for 2^20 octets and more;
+  * a bundle PDU of 2^20 octets or more is refused (`ValueError`); in the segmented branch the
+    20-bit length still wraps (`BitField` masks) when `mtu - 4 ≥ 2^20`;
   * the dissector accepts truncated messages (slices are clamped) and a declared length smaller
     than the hints (negative Python slice index).
   Not modelled (`none` = outside the model): a message header of 1..3 octets and a hint header of
@@ -175,16 +176,20 @@ def remainSize (mtu : Nat) : Int := (mtu : Int) - headLenSeg - 8
 /-- What iterating `_send_transfer(item)` gives. -/
 inductive SendResult
   | ok (frames : List Bytes)
-  | failed     -- `ValueError('MTU … too small …')` before the first frame; caught and logged by
-               -- `_process_tx_queue`, nothing is sent
+  | failed     -- `ValueError` before the first frame (bundle PDU of 2^20 octets or more; MTU too
+               -- small to segment); caught and logged by `_process_tx_queue`, nothing is sent
   deriving DecidableEq, Repr
+
+/-- The unsegmented branch: `total_len >= 2 ** 20` does not fit the 20-bit message length. -/
+def sendPdu (data : Bytes) : SendResult :=
+  if 2 ^ 20 ≤ data.length then .failed else .ok [bundleFrame data]
 
 /-- `_send_transfer(item)`; `total_len < mtu - 4` is over Python ints (`total + 4 < mtu`). -/
 def sendTransfer (xfer : Nat) (data : Bytes) (mtu : Option Nat) : SendResult :=
   match mtu with
-  | none => .ok [bundleFrame data]
+  | none => sendPdu data
   | some m =>
-    if data.length + 4 < m then .ok [bundleFrame data]
+    if data.length + 4 < m then sendPdu data
     else if remainSize m ≤ 0 then .failed
     else .ok ((segLoop (data.length + 1) data (remainSize m).toNat 0 0).map
       fun p => segFrame data.length xfer p.1 p.2.1 p.2.2)
